@@ -4,6 +4,7 @@ From Coq Require Import List Arith NArith ZArith Bool.
 From PV Require Import Base.Bytes Base.Outcome Base.KV Compkey.Model Aol.Model Aol.Spec Aol.Inv.
 From PV Require Import Chain.Model Chain.Run Chain.AolProps Chain.Example Chain.SchemaProps.
 From PV Require Generated.GenApp.
+From PV Require Chain.AcceptIff.
 Import ListNotations.
 
 (** a record is appended only if the named writer is, at that moment, in the topic's writer list *)
@@ -93,3 +94,24 @@ Proof. vm_compute. split; reflexivity. Qed.
 Theorem C02_ante_chain_as_modelled : GenApp.ante_decorators = modelled_ante_chain.
 Proof. exact ante_chain_as_modelled. Qed.
 Print Assumptions C02_ante_chain_as_modelled.
+
+(** completeness (exact characterisation of acceptance, Chain/AcceptIff.v): a listed writer CAN append — the handler
+    refuses nothing it must accept — and the owner can always add a writer that is not listed yet *)
+Theorem C02_listed_writer_can_append : forall unbech now st topic key value writer_s owner_s o w d nr nw,
+  Inv st -> unbech owner_s = Some o -> unbech writer_s = Some w ->
+  topic_info st o topic = Some (d, nr, nw) -> has_key st (WriterKey o topic w) = true ->
+  (nr + 1 < Compkey.Model.two64)%N ->
+  exists st', add_record unbech now st topic key value writer_s owner_s = Ok (st', nr) /\
+    lookup st' (RecordKey o topic nr) = Some (VRecord key value now writer_s) /\
+    nr = N.of_nat (length (records_of st o topic)).
+Proof. exact Chain.AcceptIff.listed_writer_can_append. Qed.
+Print Assumptions C02_listed_writer_can_append.
+
+Theorem C02_owner_can_always_add_writer : forall unbech, unbech_wf unbech ->
+  forall now st topic moniker desc writer_s owner_s o w,
+  Inv st -> unbech owner_s = Some o -> unbech writer_s = Some w ->
+  has_key st (TopicKey o topic) = true -> has_key st (WriterKey o topic w) = false ->
+  exists st', add_writer unbech now st topic moniker desc writer_s owner_s = Ok st' /\
+    has_key st' (WriterKey o topic w) = true.
+Proof. exact Chain.AcceptIff.owner_can_always_add_writer. Qed.
+Print Assumptions C02_owner_can_always_add_writer.
